@@ -21,6 +21,14 @@ EXPECTED_MISS = {
     "C18-C": "rewrites the scanned loop: contract drift, reported UNDECIDED by design",
     "C18-A": "superseded: the code it patches was rewritten by the F20 fix",
     "C16-A": "changes the loop header the invariants are attached to: contract drift, reported UNDECIDED by design",
+    "C09-D": "Close hangs because a channel is never closed after a failed Finish send: liveness across goroutines, channel state is not modelled",
+    "C09-E": "shutdown waits on a task group its own caller still holds: WaitGroup counts are a history property, not modelled",
+    "C11-C": "ReleaseClients releases only the first client of a row: 'every client is released' needs a model of Client.Release's effect; the loop annotations are dropped and the remaining lock discipline still holds",
+    "C11-D": "Join no longer marks the promise as pending join while parked: promise state machine across goroutines, not under contract",
+    "C14-F": "Message.Reset keeps map entry 0: a contract for Reset was written but its loop invariant does not survive Client.Release (arbitrary Shutdown hooks) without a package-wide callback frame assumption on Message; not committed",
+    "C16-D": "List.SetStruct fast path bypasses copyStruct: copyStruct's zero extension is a point assertion, not a postcondition a caller could be checked against (writePtr's frame is unknown)",
+    "C19-C": "value correspondence of pogs insertField is not under contract (a first detection was an engine artifact - an oversized cover query counted as a failure - and was removed)",
+    "C19-D": "field resolution order of pogs mapStruct is not under contract",
     "C17-B": "patch predates fix 2a502ba and no longer applies (was caught by Equal#assert:sizerule)",
 }
 
